@@ -68,8 +68,10 @@ PROPS = {
         rule="split requests as C06 with mixed present/absent keys and awkward values, fragment replies released in seeded random orders and byte-level "
              "interleavings; oracle: merged reply equals the harness's own merge of what each node returned in this run; non-trivial = fragment replies "
              "arrived in an order different from request order",
-        quick=dict(budget_s=80, profiles=[P("C07", 400)]),
-        thorough=dict(budget_s=1500, profiles=[P("C07", 15000)]),
+        quick=dict(budget_s=80, profiles=[P("C07", 350), P("C07perm", 0, enumerate=["perm:%d:%d:-1" % (sh, pm) for sh in (1, 2, 6) for pm in range([2, 6, 24, 120][sh % 4])])]),
+        thorough=dict(budget_s=1800, profiles=[P("C07", 12000),
+                      P("C07perm", 0, enumerate=["perm:%d:%d:-1" % (sh, pm) for sh in range(40) for pm in range([2, 6, 24, 120][sh % 4])]),
+                      P("C07perm", 0, enumerate=["perm:%d:%d:%d" % (sh, pm, cut) for sh in range(0, 40, 7) for pm in range([2, 6, 24, 24][sh % 4]) for cut in range(0, 12)])]),
         reach=["c07_out_of_order_arrivals"],
     ),
     "C08": dict(
